@@ -62,12 +62,18 @@ STYLE_VECTORS = {
               "minus-non-emph-style": "syntax bold 102", "plus-non-emph-style": "34 105",
               "hunk-header-style": "line-number syntax"},
     "defaults": {},
+    # every attribute in combination with `syntax`
+    "syntax-attrs": {"minus-style": "syntax reverse 101", "plus-style": "syntax dim 104", "zero-style": "syntax strike",
+                     "minus-emph-style": "syntax blink 103", "plus-emph-style": "syntax reverse 106",
+                     "minus-non-emph-style": "syntax hidden 102", "plus-non-emph-style": "syntax ul bold 105",
+                     "hunk-header-style": "line-number syntax italic"},
 }
 # which element classes (by background) ask for syntax, per vector
 SYNTAX_BG = {
     "syntax": {101, 102, 103, 104, 105, 106, None},
     "explicit": set(),
     "mixed": {101, 102, 106, None},
+    "syntax-attrs": {101, 102, 103, 104, 105, 106, None},
 }
 
 
@@ -220,6 +226,20 @@ def run_lang_task(task):
         plain = hunk_rows(drv.render1(cid, make_diff("x.unknownext", content, "same")).out)
         if rows[0] != plain:
             coloured += 1
+    # a file is not given the language of its *stem*: `<ext>.rs` is Rust whatever <ext> is
+    rs_rows = hunk_rows(drv.render1(cid, make_diff("x.rs", content, "same")).out)
+    stems = [e for e in exts if not e.startswith(".") and "/" not in e and " " not in e]
+    for i in range(0, len(stems), 40):
+        chunk = stems[i:i + 40]
+        res = drv.render(cid, [make_diff(e + ".rs", content, "same") for e in chunk])
+        for e, r in zip(chunk, res):
+            n += 1
+            if not r.panic and hunk_rows(r.out) != rs_rows:
+                k = "language-from-stem"
+                if k not in viols:
+                    v = Violation(k, "%s.rs is not coloured like x.rs" % e, make_diff(e + ".rs", content, "same").split(b"\n")[:-1])
+                    v.args = build_args(base)
+                    viols[k] = v
     # fallback to the default language
     a = hunk_rows(drv.render1(cid_rs, make_diff("x.unknownext", content, "same")).out)
     b = hunk_rows(drv.render1(cid_rs, make_diff("x.rs", content, "same")).out)
